@@ -13,65 +13,84 @@ abbrev S := St Nat String
 
 def pcOf (s : S) (i : Nat) : Option (PC String) := (s.tasks i).map (·.pc)
 
-/-- `["go",v]` and `["run",v]`: lock, check, then either stop inside the client call ("pub") or
-    unlock and return ("skip").  `["rel",v]`: publish, unlock. -/
-def start (diag : Nat → String) (g : Bool) (s : S) (v : Nat) : S × String :=
-  if g then
-    match step? diag g s (.lock v) with
-    | none => (s, if (s.tasks v).isNone then "notask" else "disabled")
-    | some s1 =>
-      match step? diag g s1 (.check v) with
-      | none => (s1, "disabled")
-      | some s2 =>
-        match pcOf s2 v with
-        | some (.checked _) => (s2, "pub")
-        | _ => match step? diag g s2 (.unlock v) with
-          | some s3 => (s3, "skip")
-          | none => (s2, "disabled")
-  else
-    -- pinned code: the task is inside the client call as soon as it is let go
-    match pcOf s v with
-    | some (.ready _) => (s, "pub")
-    | none => (s, "notask")
-    | _ => (s, "disabled")
+/-- Driver state: the model's state and the task (if any) that was let go while `publishMu` was
+    held and therefore sits in `publishMu.Lock()` (in the model: its `lock` step is not enabled). -/
+structure D where
+  s : S
+  blocked : Option Nat := none
 
-def finish (diag : Nat → String) (g : Bool) (s : S) (v : Nat) : S × String :=
-  match step? diag g s (.publish v) with
-  | none => (s, "notheld")
+/-- lock, check, then either stop inside the client call ("pub") or unlock and return ("skip"). -/
+def enter (diag : Nat → String) (g : Bool) (s : S) (v : Nat) : S × String :=
+  match step? diag g s (.lock v) with
+  | none => (s, "disabled")
   | some s1 =>
-    if g then
-      match step? diag g s1 (.unlock v) with
-      | some s2 => (s2, "ok")
-      | none => (s1, "disabled")
-    else (s1, "ok")
+    match step? diag g s1 (.check v) with
+    | none => (s1, "disabled")
+    | some s2 =>
+      match pcOf s2 v with
+      | some (.checked _) => (s2, "pub")
+      | _ => match step? diag g s2 (.unlock v) with
+        | some s3 => (s3, "skip")
+        | none => (s2, "disabled")
 
-def spawned (diag : Nat → String) (g : Bool) (s s1 : S) : S × Json :=
-  if s1.seq = s.seq then (s1, toJson (0 : Nat))
+/-- `["go",v]` and `["run",v]`. -/
+def start (diag : Nat → String) (g : Bool) (d : D) (v : Nat) : D × String :=
+  match pcOf d.s v with
+  | some (.ready _) =>
+    if d.blocked.isSome then (d, "notask")
+    else if g then
+      if d.s.lock.isSome then ({ d with blocked := some v }, "blocked")
+      else let (s1, o) := enter diag g d.s v; ({ d with s := s1 }, o)
+    else (d, "pub")     -- pinned code: the task is inside the client call as soon as it is let go
+  | _ => (d, "notask")
+
+/-- `["rel",v]`: publish, unlock; a blocked task then gets the mutex. -/
+def finish (diag : Nat → String) (g : Bool) (d : D) (v : Nat) : D × String :=
+  if g then
+    match pcOf d.s v with
+    | some (.checked _) =>
+      match step? diag g d.s (.publish v) with
+      | none => (d, "disabled")
+      | some s1 =>
+        match step? diag g s1 (.unlock v) with
+        | none => ({ d with s := s1 }, "disabled")
+        | some s2 =>
+          match d.blocked with
+          | none => ({ d with s := s2 }, "ok")
+          | some w => let (s3, o) := enter diag g s2 w; ({ s := s3, blocked := none }, "ok+" ++ o)
+    | _ => (d, "notheld")
+  else
+    match step? diag g d.s (.publish v) with
+    | none => (d, "notheld")
+    | some s1 => ({ d with s := s1 }, "ok")
+
+def spawned (diag : Nat → String) (g : Bool) (d : D) (s1 : S) : D × Json :=
+  if s1.seq = d.s.seq then ({ d with s := s1 }, toJson (0 : Nat))
   else
     -- the harness waits until the new task has reached the yield point: it has analysed
     let v := s1.seq
-    ((step? diag g s1 (.analyse v)).getD s1, toJson v)
+    ({ d with s := (step? diag g s1 (.analyse v)).getD s1 }, toJson v)
 
-def runEvent (diag : Nat → String) (g : Bool) (s : S) (e : Json) : S × Json :=
+def runEvent (diag : Nat → String) (g : Bool) (d : D) (e : Json) : D × Json :=
   match e with
   | .arr a =>
     let kind := asStr a[0]!
     let x := asNat a[1]!
     let y := asNat (a[2]?.getD (toJson (0 : Nat)))
     match kind with
-    | "open" => spawned diag g s (step diag g s (.openDoc x (pack x y)))
-    | "change" => spawned diag g s (step diag g s (.change x (pack x y)))
-    | "close" => (step diag g s (.close x), toJson (0 : Nat))
+    | "open" => spawned diag g d (step diag g d.s (.openDoc x (pack x y)))
+    | "change" => spawned diag g d (step diag g d.s (.change x (pack x y)))
+    | "close" => ({ d with s := step diag g d.s (.close x) }, toJson (0 : Nat))
     | "go" =>
-      let (s1, o) := start diag g s x
+      let (d1, o) := start diag g d x
       if o == "pub" then
-        let (s2, f) := finish diag g s1 x
-        (s2, toJson (if f == "ok" then "pub" else f))
-      else (s1, toJson o)
-    | "run" => let (s1, o) := start diag g s x; (s1, toJson o)
-    | "rel" => let (s1, o) := finish diag g s x; (s1, toJson o)
-    | _ => (s, toJson "?")
-  | _ => (s, toJson "?")
+        let (d2, f) := finish diag g d1 x
+        (d2, toJson (if f == "ok" then "pub" else f))
+      else (d1, toJson o)
+    | "run" => let (d1, o) := start diag g d x; (d1, toJson o)
+    | "rel" => let (d1, o) := finish diag g d x; (d1, toJson o)
+    | _ => (d, toJson "?")
+  | _ => (d, toJson "?")
 
 def noteOf (e : Json) : Option HL.Spec.Converge.Note :=
   match e with
@@ -105,8 +124,8 @@ def parseLog (j : Json) : List (Nat × List (Nat × String)) :=
     line selects the pinned variant, used only by hand) on the recorded schedule.
     model     = per-event outcomes, the client's log per URI, tasks left in flight;
     spec_ok   = (oracle, on the implementation's log) every document open at the end shows the
-                diagnostics a fresh server gives for its final text, and the versions received per
-                URI are strictly increasing;
+                diagnostics a fresh server gives for its final text (the version tags of the log
+                are compared with the model's — correspondence — but not judged);
     in_domain = the schedule ran to quiescence in the implementation (nothing left, no time-out). -/
 def sched (j : Json) : Json := Id.run do
   let evs := (jarr j "ev").toList
@@ -116,17 +135,18 @@ def sched (j : Json) : Json := Id.run do
     | .arr a => (pack (asNat a[0]!) (asNat a[1]!), asStr a[2]!)
     | _ => (0, "")
   let diag : Nat → String := fun t => ((table.find? (·.1 == t)).map (·.2)).getD "?"
-  let mut s : S := St.init
+  let mut d : D := { s := St.init }
   let mut out : Array Json := #[]
   let mut us : List Nat := []
   for e in evs do
-    let (s1, o) := runEvent diag g s e
-    s := s1
+    let (d1, o) := runEvent diag g d e
+    d := d1
     out := out.push o
     match noteOf e with
     | some (.openDoc u _) | some (.change u _) | some (.close u) => if !us.contains u then us := u :: us
     | none => pure ()
   let usSorted := us.mergeSort
+  let s := d.s
   let left := (List.range (s.seq + 1)).countP fun i => (s.tasks i).isSome
   let model := Json.mkObj [("out", Json.arr out), ("log", logJson usSorted s.log), ("left", toJson left)]
   -- oracle, on the implementation's output
@@ -135,16 +155,14 @@ def sched (j : Json) : Json := Id.run do
   let ilogOf : Nat → List (Nat × String) := fun u => ((ilog.find? (·.1 == u)).map (·.2)).getD []
   let notes := evs.filterMap noteOf
   let conv := HL.Spec.Converge.converged notes (fun u t => diag (pack u t)) (fun u => (ilogOf u).map (·.2))
-  let incr := ilog.all fun (_, l) => HL.Spec.Converge.increasing (l.map (·.1))
   let iout := jarr impl "out"
   let clean := jnat impl "left" == 0 && iout.all fun o =>
     match o with
-    | .str x => x == "pub" || x == "skip" || x == "ok"
+    | .str x => x == "pub" || x == "skip" || x == "ok" || x == "blocked" || x == "ok+pub" || x == "ok+skip"
     | _ => true
-  let why := if !conv then "a document open at the end does not show the diagnostics of its final text"
-    else if !incr then "diagnostics of an older version were delivered after those of a newer one" else ""
+  let why := if !conv then "a document open at the end does not show the diagnostics of its final text" else ""
   let ntasks := s.seq
-  return Json.mkObj [("model", model), ("spec_ok", !clean || (conv && incr)), ("in_domain", clean),
+  return Json.mkObj [("model", model), ("spec_ok", !clean || conv), ("in_domain", clean),
     ("known", Json.arr #[]), ("why", why), ("nontrivial", clean && ntasks ≥ 2)]
 
 def handle (op : String) (j : Json) : Option Json :=
